@@ -18,6 +18,12 @@ class E:
 
 
 @dataclass(eq=False)
+class F:
+    n: int
+    flag: bool
+
+
+@dataclass(eq=False)
 class T0(Symbol):
     p: E
 
@@ -72,6 +78,15 @@ def build(family, n, cold):
         ints = [3, 7, 2, 0][:max(n, 3)] if n >= 4 else [3, 2, 0]
         x = let(int, (i for i in ints) if cold else list(ints), name="x")
         qs = {1: an(entity(x, and_(x < 5, x))), 2: an(entity(x, x >= 1, x <= 7))}
+    elif family in ("shared_mapping", "shared_mapping_root"):
+        # ONE attribute node shared by two queries: used for its value (operand of a comparison) in the first and for
+        # its truth value (a condition of its own) in the second
+        fs = [F(i + 1, i % 2 == 0) for i in range(max(n, 4))]
+        x = let(F, (o for o in fs) if cold else list(fs), name="x")
+        node = x.flag
+        # ... as one of several conditions (its parent is a logical operator), or as the SOLE condition (conditions root)
+        qs = {1: an(entity(x, node == True)),
+              2: an(entity(x, node)) if family == "shared_mapping_root" else an(entity(x, and_(node, x.n >= 0)))}
     elif family == "independent":
         objs2 = [E(i + 1) for i in range(n)]
         y = let(E, (o for o in objs2) if cold else list(objs2), name="y")
@@ -84,7 +99,7 @@ def build(family, n, cold):
 def project(v, x):
     if isinstance(v, int):
         return "i" + str(v)
-    if isinstance(v, E):
+    if isinstance(v, (E, F)):
         return str(v.n)
     if isinstance(v, (T0, T1)):
         return str(v.p.n)
